@@ -268,6 +268,13 @@ func negotiateServer(ctx context.Context, identity, password string, permissions
 		if err != nil {
 			return 0, nil, err
 		}
+		// Make sure the client will actually see the success element before we
+		// consider it authenticated and wait for it to restart the stream (the
+		// deferred Close would flush too, but drops the error).
+		err = w.Flush()
+		if err != nil {
+			return 0, nil, err
+		}
 		return Authn, session.Conn(), nil
 	}
 
@@ -277,6 +284,10 @@ func negotiateServer(ctx context.Context, identity, password string, permissions
 			Name: xml.Name{Space: ns.SASL, Local: "success"},
 		},
 	))
+	if err != nil {
+		return 0, nil, err
+	}
+	err = w.Flush()
 	if err != nil {
 		return 0, nil, err
 	}
